@@ -957,6 +957,11 @@ class Interp:
                 if not t:
                     break
                 n += 1
+                if n > 256 and isinstance(st.test, ast.Constant) and st.test.value is True and env_lookup_yield(env) is not None \
+                        and all(isinstance(b, ast.Expr) and isinstance(b.value, ast.Yield) for b in st.body):
+                    # `while True: yield x` in a generator: an endless supply, consumed lazily by zip() / next() in Python; the
+                    # extractor materialises generators, 256 items are more than any consumer in this code base takes
+                    return
                 if n > MAX_UNROLL:
                     self.opaque(st, 'while bound')
                     return
@@ -1133,6 +1138,8 @@ class Interp:
             return False                       # an element of a list / dict of Signals, not a plain local
         if _eq_sites(self.index, getattr(si, 'var_file', None) or self.curfile, nm) != 1:
             return False                       # assigned at more than one place (a default plus overrides): a real signal
+        if _eq_site_repeats(self.index, getattr(si, 'var_file', None) or self.curfile, nm):
+            return False                       # assigned inside a loop / helper: possibly many drivers
         fkey = getattr(si, 'var_file', None) or self.curfile
         ref = _signals_ref().get(fkey)
         if ref is None:
@@ -1204,6 +1211,12 @@ class Interp:
                     # just as invisible to the extractor, so nothing is lost by reading the merged spelling the same way.
                     for a, b in zip(lhs.args, rhs.args):
                         emit(a, b, guard)
+                    return
+                if isinstance(lhs, E) and lhs.op == 'cat' and len(lhs.args) > 1 and isinstance(rhs, E) and rhs.op == 'const' and \
+                        rhs.val == 0 and all(isinstance(a, E) for a in lhs.args):
+                    # Cat(p, q, ...).eq(0): every target is 0, whatever the widths
+                    for a in lhs.args:
+                        emit(a, E('const', val=0, w=a.w), guard)
                     return
                 if isinstance(lhs, E) and lhs.op == 'cat' and len(lhs.args) > 1 and isinstance(rhs, E) and \
                         all(isinstance(a, E) and isinstance(a.w, int) for a in lhs.args):
@@ -1457,6 +1470,63 @@ def _subst_inlined(ir):
         it.guard = tuple(ng)
 
 
+def _state_flags_to_ongoing(ir):
+    """A combinational local that is only ever set, unconditionally, inside FSM states (`sending.eq(1)` in four states) is
+    the OR of `fsm.ongoing()` of those states: its readers are rewritten that way (and then normalised by
+    _ongoing_to_state like a hand-written `fsm.ongoing()` expression); the flag itself disappears."""
+    if not ir.fsms:
+        return
+    by = {}
+    for a in ir.assigns:
+        if isinstance(a.lhs, E) and a.lhs.op == 'sig':
+            by.setdefault(a.lhs.args[0].name, []).append(a)
+    flags = {}
+    for name, ds in by.items():
+        if name.startswith('self.') or '.' in name or '[' in name:
+            continue
+        si = ir.signals.get(name) or ds[0].lhs.args[0]
+        if getattr(si, 'w', None) != 1:
+            continue
+        if all(a.domain == 'comb' and a.state is not None and not a.guard and isinstance(a.rhs, E) and a.rhs.op == 'const'
+               and a.rhs.val == 1 for a in ds) and len({a.state[0] for a in ds}) == 1:
+            if any(name in b.lhs_sigs() and b not in ds for b in ir.assigns):
+                continue
+            sts = []
+            for a in ds:
+                if a.state not in sts:
+                    sts.append(a.state)
+            ongs = [E('ongoing', (f_, s_), w=1) for f_, s_ in sts]
+            flags[name] = (ongs[0] if len(ongs) == 1 else E('|', tuple(ongs), w=1), ds)
+    if not flags:
+        return
+
+    def sub(e):
+        if not isinstance(e, E):
+            return e
+        if e.op == 'sig' and e.args[0].name in flags:
+            return flags[e.args[0].name][0]
+        if not any(isinstance(x, E) for x in e.args):
+            return e
+        na = tuple(sub(x) for x in e.args)
+        return e if all(x is y for x, y in zip(na, e.args)) else E(e.op, na, w=e.w, val=e.val, label=e.label)
+    used = set()
+    drop = {id(a) for _, ds in flags.values() for a in ds}
+    for it in list(ir.assigns) + [ed for f in ir.fsms for ed in f.edges]:
+        if id(it) in drop:
+            continue
+        if isinstance(getattr(it, 'rhs', None), E):
+            it.rhs = sub(it.rhs)
+        ng = []
+        for l in it.guard:
+            e2 = sub(l.e)
+            if e2 is l.e:
+                ng.append(l)
+            else:
+                ng.extend(literals(e2, l.pos, l.kind))
+        it.guard = tuple(ng)
+    ir.assigns[:] = [a for a in ir.assigns if id(a) not in drop]
+
+
 def _ongoing_to_state(ir):
     """`fsm.ongoing("X")` used at module level: an assignment outside the FSM that is conditioned on `ongoing(X)` is the
     same statement written inside `with m.State("X")`.  Normalise to the in-state form:
@@ -1497,7 +1567,9 @@ def _ongoing_to_state(ir):
         # general case: an unguarded one-bit flag that is a boolean function of ongoing() atoms of one FSM (and other
         # conditions), the flag having no other driver: one in-state statement per state in which it is not constant 0
         ongs = [n for n in r.walk() if n.op == 'ongoing']
-        if not ongs or a.guard or r.w != 1 or any(not ong(_L(n)) for n in ongs) or len({n.args[0] for n in ongs}) != 1:
+        from .ir import _is_bool as _isb
+        one_bit = r.w == 1 or (r.w is None and r.op in ('&', '|', '~', 'ongoing') and _isb(r))
+        if not ongs or a.guard or not one_bit or any(not ong(_L(n)) for n in ongs) or len({n.args[0] for n in ongs}) != 1:
             continue
         tgt = a.lhs.args[0].name
         if sum(1 for b in ir.assigns if tgt in b.lhs_sigs()) != 1:
@@ -1553,7 +1625,7 @@ def _subst_ongoing(e, st):
         return E('const', val=int(e.args[1] == st), w=1)
     if not any(n.op == 'ongoing' for n in e.walk()):
         return e
-    if e.op in ('&', '|') and e.w == 1:
+    if e.op in ('&', '|') and e.w in (1, None):
         args = []
         for x in e.args:
             v = _subst_ongoing(x, st)
@@ -1567,7 +1639,7 @@ def _subst_ongoing(e, st):
         if not args:
             return E('const', val=int(e.op == '&'), w=1)
         return args[0] if len(args) == 1 else E(e.op, tuple(args), w=1)
-    if e.op == '~' and e.w == 1:
+    if e.op == '~' and e.w in (1, None):
         v = _subst_ongoing(e.args[0], st)
         if v is None:
             return None
@@ -1624,6 +1696,42 @@ def _unit_propagate(ir):
     for it in list(ir.assigns) + [ed for f in ir.fsms for ed in f.edges]:
         if any(l.pos and isinstance(l.e, E) and l.e.op == '|' for l in it.guard) or len({l.canon() for l in it.guard}) != len(it.guard):
             it.guard = _simplify_guard(it.guard)
+
+
+_EQLOOP = {}
+
+
+def _eq_site_repeats(index, relpath, name):
+    """Is some `.eq(` on the local `name` written where it can execute more than once per elaboration -- inside a Python
+    loop or comprehension, or inside a nested function / lambda / helper method (anything but `elaborate` itself)?  Then the
+    static count of assignment sites says nothing about the number of drivers."""
+    key = (relpath, name)
+    if key not in _EQLOOP:
+        tree = None
+        for mi in index.modules.values():
+            if mi.relpath == relpath:
+                tree = mi.tree
+                break
+        hit = False
+        if tree is not None:
+            def walk(node, rep):
+                nonlocal hit
+                for ch in ast.iter_child_nodes(node):
+                    r = rep
+                    if isinstance(ch, (ast.For, ast.While, ast.ListComp, ast.GeneratorExp, ast.SetComp, ast.DictComp, ast.Lambda)):
+                        r = True
+                    elif isinstance(ch, (ast.FunctionDef, ast.AsyncFunctionDef)):
+                        r = ch.name != 'elaborate'
+                    if r and isinstance(ch, ast.Call) and isinstance(ch.func, ast.Attribute) and ch.func.attr == 'eq':
+                        t = ch.func.value
+                        while isinstance(t, ast.Subscript):
+                            t = t.value
+                        if isinstance(t, ast.Name) and t.id == name:
+                            hit = True
+                    walk(ch, r)
+            walk(tree, False)
+        _EQLOOP[key] = hit
+    return _EQLOOP[key]
 
 
 _EQSITES = {}
@@ -1700,6 +1808,7 @@ def extract(index, cls, kwargs=None, method='elaborate', collections=True, platf
     ip.callstack = []
     ir.result = ip.call_func(fr, [plat] if len(el[1].args.args) > 1 else [], {}, None)
     _subst_inlined(ir)
+    _state_flags_to_ongoing(ir)
     _ongoing_to_state(ir)
     _unit_propagate(ir)
     for si in ip._siglist:
